@@ -5,7 +5,7 @@ Server: `h3/src/server/connection.rs` `shutdown`, `accept`, `poll_accept_request
 (the accept/reject filter, `last_accepted_stream`, `sent_closing`, `recv_closing`,
 `ongoing_streams`), `h3/src/connection.rs` `ConnectionInner::{shutdown, process_goaway}`,
 `set_closing`.  Client: `h3/src/client/connection.rs` `poll_close` (GOAWAY rules) and the
-`send_request` gate `check_peer_connection_closing`.
+`send_request` gates `check_peer_connection_closing` (on entry, and again behind `poll_open_bidi`).
 
 The model describes the code after the D-08 repair: the identifier announced is *exclusive*
 (`largest accepted + (n+1)` in `StreamId` arithmetic, `FIRST_REQUEST + n` when nothing was
@@ -13,7 +13,15 @@ accepted) and the filter rejects `>=`.
 
 One `Ev.accept` is one call of `accept()` polled until it returns or parks: it first drains the
 control stream (`poll_control`), then takes streams from the transport's queue of opened
-bidirectional streams until one is surfaced, the queue is empty, or `None` is decided.
+bidirectional streams until one is surfaced or the queue is empty; `None` is decided only with
+an empty queue (after the D-08b repair a refusal is remembered — `refused` — and the loop goes on
+with the streams queued behind the refused one).
+
+Client `send_request` is two events (after the D-08c repair the code has two gates): `sendCall`
+— the call is made, first gate, then it waits in `poll_open_bidi` (`parked`) — and `sendOpened`
+— the transport hands the call its stream (at once when there is stream credit, otherwise when
+the peer grants it), second gate, then the request is written.  Whatever happens between the two
+(GOAWAYs received, driver polls) is seen by the second gate.
 Request completion is taken as already seen by the connection (`poll_requests_completion` is
 run before every look at `ongoing_streams`; the channel itself is modelled in `H3.Drain`). -/
 namespace H3.Goaway
@@ -38,6 +46,8 @@ structure State where
   failed : Bool := false
   /-- client: number of request streams opened so far. -/
   opened : Nat := 0
+  /-- client: calls of `send_request` that passed the first gate and wait in `poll_open_bidi`. -/
+  parked : Nat := 0
 deriving Repr, DecidableEq
 
 inductive Ev where
@@ -53,8 +63,11 @@ inductive Ev where
   | recvGoaway (id : Nat)
   /-- client: the driver (`poll_close`) is polled. -/
   | pollClose
-  /-- client: `send_request`. -/
-  | sendRequest
+  /-- client: `send_request` is called: the first gate; then the call waits for its stream. -/
+  | sendCall
+  /-- client: `poll_open_bidi` of the longest-waiting `send_request` call resolves (there was stream
+      credit, or the peer has granted it): the second gate; then the request is written. -/
+  | sendOpened
   /-- the application calls `resolve_request` on request `id` (shown to it earlier, handle not yet
       dropped); the peer has sent a complete, well-formed HEADERS frame on the stream. -/
   | resolve (id : Nat)
@@ -79,14 +92,25 @@ inductive Obs where
   | drvPending
   /-- `send_request` opened request stream `id`. -/
   | opened (id : Nat)
-  /-- `send_request` returned `RemoteClosing`; no stream was opened. -/
+  /-- `send_request` returned `RemoteClosing`; nothing was written on any request stream. -/
   | remoteClosing
+  /-- `send_request` had opened stream `id` when its second gate refused the request: the stream is
+      dropped without a byte (shown in front of that call's `remoteClosing`). -/
+  | unused (id : Nat)
   /-- `resolve_request` returned the request on stream `id`: it is being served. -/
   | served (id : Nat)
   /-- `resolve_request` on stream `id` failed or never returned although the peer sent a complete,
       well-formed request.  The model never shows this; it exists for the oracle
       (`H3.Spec.Goaway.okObs`) and the judge of observed histories. -/
   | notServed (id : Nat)
+  /-- the peer has opened request stream `id` (transport).  Like the next two never shown by `step`:
+      the scenario interpreter and the projection put them into a history for the oracle's queue
+      rules (`H3.Spec.Goaway.okQueue`). -/
+  | arrived (id : Nat)
+  /-- the application has dropped its last handle of request `id`. -/
+  | completed (id : Nat)
+  /-- the application calls `shutdown(n)` (in front of that call's answer). -/
+  | shutdownCalled (n : Nat)
 deriving Repr, DecidableEq
 
 /-! ### `shutdown` -/
@@ -164,27 +188,25 @@ def acceptNone (s : State) : State × List Obs :=
   let r := shutdown s 0
   (r.1, r.2 ++ [.acceptNone])
 
-def drained (s : State) : Bool := s.recvClosing.isSome && s.ongoing.isEmpty
+/-- no stream is waiting: `(rejected || recv_closing.is_some()) && poll_requests_completion().is_ready()`. -/
+def drained (refused : Bool) (s : State) : Bool := (refused || s.recvClosing.isSome) && s.ongoing.isEmpty
 
-/-- the loop of `poll_accept_request_stream_internal` over the transport's queue. -/
-def acceptLoop (s : State) : List Nat → State × List Obs
+/-- the loop of `poll_accept_request_stream_internal` over the transport's queue; `refused` = a stream
+    has been refused earlier in this poll (the local `rejected`). -/
+def acceptLoop (refused : Bool) (s : State) : List Nat → State × List Obs
   | [] =>
     let s0 := { s with incoming := [] }
-    if drained s0 then acceptNone s0 else (s0, [.acceptPending])
+    if drained refused s0 then acceptNone s0 else (s0, [.acceptPending])
   | id :: rest =>
     if rejects s.sentClosing id then
-      if s.ongoing.isEmpty then
-        let r := acceptNone { s with incoming := rest }
-        (r.1, .rejected id :: r.2)
-      else
-        let r := acceptLoop s rest
-        (r.1, .rejected id :: r.2)
+      let r := acceptLoop true s rest
+      (r.1, .rejected id :: r.2)
     else (surface s id rest, [.surfaced id])
 
 def accept (s : State) : State × List Obs :=
   if s.failed then (s, [.acceptErr]) else
   let s1 := procCtlServer s s.ctl
-  if s1.failed then (s1, [.acceptErr]) else acceptLoop s1 s1.incoming
+  if s1.failed then (s1, [.acceptErr]) else acceptLoop false s1 s1.incoming
 
 /-! ### client -/
 
@@ -193,10 +215,21 @@ def pollClose (s : State) : State × List Obs :=
   let s1 := procCtlClient s s.ctl
   if s1.failed then (s1, [.idError]) else (s1, [.drvPending])
 
-/-- `send_request`: the gate is the `closing` flag; otherwise the next bidirectional stream. -/
-def sendRequest (s : State) : State × List Obs :=
+/-- `send_request` up to `poll_open_bidi`: the first gate is the `closing` flag; a call that passes
+    waits for its stream. -/
+def sendCall (s : State) : State × List Obs :=
   if s.closing then (s, [.remoteClosing])
-  else ({ s with opened := s.opened + 1 }, [.opened (4 * s.opened)])
+  else ({ s with parked := s.parked + 1 }, [])
+
+/-- `send_request` from `poll_open_bidi` on: the transport has opened the next bidirectional stream
+    for the call; the second gate reads the `closing` flag again — a refused call leaves its stream
+    without a byte —, otherwise the request is written.  Without a waiting call nothing happens. -/
+def sendOpened (s : State) : State × List Obs :=
+  if s.parked = 0 then (s, [])
+  else
+    let s1 := { s with parked := s.parked - 1, opened := s.opened + 1 }
+    if s.closing then (s1, [.unused (4 * s.opened), .remoteClosing])
+    else (s1, [.opened (4 * s.opened)])
 
 /-! ### the step function -/
 
@@ -212,7 +245,8 @@ def step (s : State) : Ev → State × List Obs
   | .complete id => ({ s with ongoing := s.ongoing.filter (· != id) }, [])
   | .recvGoaway id => ({ s with ctl := s.ctl ++ [id] }, [])
   | .pollClose => pollClose s
-  | .sendRequest => sendRequest s
+  | .sendCall => sendCall s
+  | .sendOpened => sendOpened s
   -- `RequestResolver::resolve_request` does not look at `sent_closing` / `recv_closing` / `closing`:
   -- a request that was shown to the application is served whatever the state of the shutdown
   | .resolve id => if s.ongoing.contains id then (s, [.served id]) else (s, [])
